@@ -101,6 +101,9 @@ class Ctx(object):
         for old, r in self._sqrts:
             if old.eq(rad):
                 return r
+            d = z3.simplify(old - rad, som=True)
+            if z3.is_rational_value(d) and d.numerator_as_long() == 0:
+                return r
         r = self.fresh('sqrt')
         self.define(r, z3.And(r >= 0, r * r == rad))
         self._sqrts.append((rad, r))
